@@ -402,6 +402,8 @@ def _must_assign(ctx: Ctx, f: Func, self_cls: Class, memo: Dict, depth: int = 0,
             return out
         if isinstance(n.ast, (ast.Assign, ast.AnnAssign, ast.AugAssign)):
             tgts = n.ast.targets if isinstance(n.ast, ast.Assign) else [n.ast.target]
+            # `a, self._x = self._x, v`: every element of a tuple target is a target
+            tgts = [e for t in tgts for e in (t.elts if isinstance(t, (ast.Tuple, ast.List)) else [t])]
             for t in tgts:
                 if isinstance(t, ast.Attribute) and src(t.value) == self_name and (not isinstance(n.ast, ast.AnnAssign) or n.ast.value is not None):
                     st = self_cls.lookup_setter(t.attr)
